@@ -26,8 +26,9 @@ func c05Sweep(c *CaseCtx) *CaseResult {
 		fail := func(format string, args ...any) {
 			res.fail(viol("arith", "slab size %d: %s", s, fmt.Sprintf(format, args...)))
 		}
-		if th.Target != s || th.Min != s/2 || th.Max != uint32(float64(s)*1.5) {
-			fail("thresholds target=%d min=%d max=%d", th.Target, th.Min, th.Max)
+		// the library's split / merge thresholds must be at least as strict as the band the property states
+		if th.Target != s || th.Min < s/2 || th.Max > uint32(float64(s)*1.5) || th.Min > th.Max/2 {
+			fail("thresholds target=%d min=%d max=%d are not inside the band [%d, %d]", th.Target, th.Min, th.Max, s/2, uint32(float64(s)*1.5))
 		}
 		if 2*th.MaxInlineArrayElementSize+szArrayDataPrefix > s {
 			fail("two maximal array elements (%d each) plus the non-root prefix do not fit the target size", th.MaxInlineArrayElementSize)
